@@ -1,7 +1,7 @@
 (* C07 — inclusion on BDD-encoded tree automata is exact; unimplemented selections throw. Statements only. *)
 From Coq Require Import List NArith Bool.
 Import ListNotations.
-From V Require Import Sem Prod Incl TrimDefs TrimProofs Lang InclDefs InclProofs DispatchTable AntichainUp BuUpUnion DownIncl DownInclCacheDefs DownInclCacheProofs DownInclOptDefs DownInclOptProofs NegCache.
+From V Require Import Sem Prod Incl TrimDefs TrimProofs Lang InclDefs InclProofs DispatchTable AntichainUp AntichainUpW BuUpUnion DownIncl DownInclCacheDefs DownInclCacheProofs DownInclOptDefs DownInclOptProofs NegCache.
 
 (* the verdict every implemented selection must report is exact, and equals the explicit encoding's (same function) *)
 Theorem C07_exact : forall v A B, incl_model v A B = true <-> (forall t, accepts A t -> accepts B t).
@@ -27,6 +27,18 @@ Proof. intros w H. vm_compute in H. repeat (destruct H as [<-|H]; [reflexivity|]
 (* (A) the upward saturation with one macro-state per child position and antichain pruning is exact (shared with C01) ... *)
 Theorem C07_up_antichain_exact : forall A B, up_ac A B = true <-> forall t, accepts A t -> accepts B t.
 Proof. exact up_antichain_exact. Qed.
+
+(* (A) the same algorithm as the code runs it: a work list, an antichain of processed pairs, the `contains` test on a popped pair,
+   the acceptance test that ends the run with "not included", `refine` (processed pairs subsumed by the new one are deleted) and
+   the consequences the new pair adds: a run that ends returns the decider's verdict, for every fuel *)
+Theorem C07_up_worklist_refines : forall A B fuel b, up_worklist A B fuel = Some b -> b = incl_dec A B.
+Proof. exact up_worklist_refines. Qed.
+Theorem C07_up_worklist_exact : forall A B fuel b, up_worklist A B fuel = Some b -> (b = true <-> forall t, accepts A t -> accepts B t).
+Proof. exact up_worklist_exact. Qed.
+(* a work list ordered by (size of the macro-state, state) WITHOUT a tie-break on the macro-state drops a pending pair: refuted *)
+Theorem C07_up_worklist_keyed_refuted :
+  up_worklist_keyed kA kB 20 = Some true /\ incl_dec kA kB = false /\ up_worklist kA kB 20 = Some false.
+Proof. exact up_worklist_keyed_refuted. Qed.
 (* ... whereas the post-image step as it was before the fix of defect D9 (union of all macro-states per child position)
    answers "included" for A: a->q, b->q, f(q,q)->p   B: a->r1, b->r2, f(r1,r1)->s, f(r2,r2)->s *)
 Theorem C07_bu_up_union_refuted : up_union d9_A d9_B = true /\ incl_dec d9_A d9_B = false /\ up_ac d9_A d9_B = false.
@@ -68,3 +80,6 @@ Print Assumptions C07_down_opt_partial_correct.
 Print Assumptions C07_down_opt_careless_refuted.
 Print Assumptions C07_neg_cache_sound.
 Print Assumptions C07_neg_cache_wrong_side_refuted.
+Print Assumptions C07_up_worklist_refines.
+Print Assumptions C07_up_worklist_exact.
+Print Assumptions C07_up_worklist_keyed_refuted.
